@@ -220,6 +220,49 @@ func genC12(repo string, args []string) (string, error) {
 	}
 	add("regexpHasCaptureGroups: the answer is the walk over the parsed pattern (any OpCapture), with no shortcut on the pattern text", hgOK)
 
+	// ---- goCommentRule: the thing a comment rule matches with IS Go's regexp (the methods runCommentRules calls on rule.pat --
+	// FindStringSubmatchIndex, FindStringIndex, SubexpNames -- are regexp.Regexp's own, applied to the argument as it stands;
+	// a wrapper type with methods of the same names would change what they mean without changing runCommentRules)
+	gf, err := parse("ruleguard/gorule.go")
+	if err != nil {
+		return "", err
+	}
+	patIsRegexp := false
+	for _, d := range gf.Decls {
+		gd, ok := d.(*ast.GenDecl)
+		if !ok || gd.Tok != token.TYPE {
+			continue
+		}
+		for _, sp := range gd.Specs {
+			ts, ok := sp.(*ast.TypeSpec)
+			if !ok || ts.Name.Name != "goCommentRule" {
+				continue
+			}
+			st, ok := ts.Type.(*ast.StructType)
+			if !ok {
+				continue
+			}
+			var fields []string
+			for _, f := range st.Fields.List {
+				for _, n := range f.Names {
+					fields = append(fields, n.Name+" "+exprString(fset, f.Type))
+				}
+				if len(f.Names) == 0 {
+					fields = append(fields, "(embedded) "+exprString(fset, f.Type))
+				}
+			}
+			patIsRegexp = strings.Join(fields, "; ") == "base goRule; pat *regexp.Regexp; captureGroups bool"
+		}
+	}
+	regexpIsStd := false
+	for _, im := range gf.Imports {
+		if im.Path.Value == `"regexp"` && im.Name == nil {
+			regexpIsStd = true
+		}
+	}
+	add("goCommentRule is {base goRule; pat *regexp.Regexp; captureGroups bool} with regexp the standard package: the matching methods are Go's regexp's own",
+		patIsRegexp && regexpIsStd)
+
 	var sb strings.Builder
 	sb.WriteString("Require Import Coq.Strings.String.\n")
 	sb.WriteString("(* where runCommentRules declares the match data of its rule loop: true = `var m matchData` is the first statement of the\n   loop body, false = it is declared once before the loop *)\n")
@@ -238,5 +281,5 @@ func genC12(repo string, args []string) (string, error) {
 		fmt.Fprintf(&sb, "  (%q%%string, %s)%s\n", strings.ReplaceAll(f.name, "\"", "'"), b, sep)
 	}
 	sb.WriteString("].\n")
-	return fmt.Sprintf(header, "ruleguard/runner.go, ruleguard/ir_loader.go, ruleguard/utils.go") + sb.String(), nil
+	return fmt.Sprintf(header, "ruleguard/runner.go, ruleguard/ir_loader.go, ruleguard/utils.go, ruleguard/gorule.go") + sb.String(), nil
 }
